@@ -1,0 +1,11 @@
+//go:build verif
+
+package nfa
+
+// VerifSetMaxVisited overrides the visited-table cap (entries) of the
+// backtracker. Verification-only (build tag "verif"); call before any search.
+func (b *BoundedBacktracker) VerifSetMaxVisited(n int) {
+	if n > 0 {
+		b.maxVisitedSize = n
+	}
+}
